@@ -5,7 +5,7 @@ C13 — publish / ref_count / replay.  Model: RxVerif/Kernel/ConnM.lean on top o
 All statements quantify over every call sequence, for a hot source and for every cold script.
 -/
 namespace Rx.ConnM
-open Rx.SubjM (registered emit subscribeA subscribeB unsubscribeN Inv Armed LogOk Pending)
+open Rx.SubjM (registered emit subscribeA subscribeB subscribeH reap unsubscribeN Inv Armed LogOk Pending)
 
 /-! ## how the pieces of a call act on the subject -/
 
@@ -65,17 +65,29 @@ end pres
 theorem onUnsubscribe_sub (st : State) (len : Option Nat) : (onUnsubscribe st len).sub = st.sub := by
   unfold onUnsubscribe; split <;> rfl
 
+/-- the subject after a `subscribe` call -/
+theorem step_subscribe_sub_eq (k : Kind) (src : Src) (st : State) (o : Nat) :
+    (step k src st (.subscribe o)).sub =
+      (subscribeB k.subj
+        (if k.counts = true then onSubscribe k src { st with sub := (subscribeA k.subj st.sub o).1 }
+          (subscribeA k.subj st.sub o).2.len else { st with sub := (subscribeA k.subj st.sub o).1 }).sub o
+        (subscribeA k.subj st.sub o).2).1 := by
+  simp only [step]
+  split
+  · rw [onUnsubscribe_sub]
+  · rfl
+
 /-- `subscribe`: `subscribeA`, then (ref_count / replay) emissions of a cold source, then `subscribeB` -/
 theorem step_pres_sub {k : Kind} {P : SubjM.State → Prop} (src : Src)
     (hE : ∀ s ev, P s → P (emit k.subj s ev))
     (st : State) (o : Nat)
     (hA : ∀ s, P s → P (subscribeA k.subj s o).1)
     (hB : ∀ s s', P s → P s' → (subscribeA k.subj s o).2.fresh = true → ((s'.obs o).seen = true) →
-        P (subscribeB k.subj s' o (subscribeA k.subj s o).2))
-    (hB0 : ∀ s' p, P s' → p.fresh = false → P (subscribeB k.subj s' o p))
+        P (subscribeB k.subj s' o (subscribeA k.subj s o).2).1)
+    (hB0 : ∀ s' p, P s' → p.fresh = false → P (subscribeB k.subj s' o p).1)
     (hSeen : ∀ s ev, P s → (s.obs o).seen = true → ((emit k.subj s ev).obs o).seen = true)
     (h : P st.sub) : P (step k src st (.subscribe o)).sub := by
-  simp only [step]
+  rw [step_subscribe_sub_eq]
   cases hf : (subscribeA k.subj st.sub o).2.fresh with
   | false =>
     apply hB0 _ _ _ hf
@@ -132,8 +144,8 @@ theorem step_pres {k : Kind} {P : SubjM.State → Prop} (src : Src)
     (hE : ∀ s ev, P s → P (emit k.subj s ev))
     (hA : ∀ s o, P s → P (subscribeA k.subj s o).1)
     (hB : ∀ s s' o, P s → P s' → (subscribeA k.subj s o).2.fresh = true → ((s'.obs o).seen = true) →
-        P (subscribeB k.subj s' o (subscribeA k.subj s o).2))
-    (hB0 : ∀ s' o p, P s' → p.fresh = false → P (subscribeB k.subj s' o p))
+        P (subscribeB k.subj s' o (subscribeA k.subj s o).2).1)
+    (hB0 : ∀ s' o p, P s' → p.fresh = false → P (subscribeB k.subj s' o p).1)
     (hU : ∀ s o, P s → P (unsubscribeN k.subj s o).1)
     (hSeen : ∀ s ev o, P s → (s.obs o).seen = true → ((emit k.subj s ev).obs o).seen = true)
     (st : State) (c : Call) (h : P st.sub) : P (step k src st c).sub := by
@@ -266,11 +278,11 @@ theorem handOver_dead (r : SubjM.ObsSt) (hist : List Data) (we : Option Nat) (wc
   | some e => simp [hr]
   | none => cases wc <;> simp [hr]
 
-theorem subscribeB_obs_self (k : SubjM.Kind) (s : SubjM.State) (o : Nat) (p : Pending) :
-    (subscribeB k s o p).obs o = s.obs o ∨
+theorem subscribeH_obs_self (k : SubjM.Kind) (s : SubjM.State) (o : Nat) (p : Pending) :
+    (subscribeH k s o p).obs o = s.obs o ∨
     (k = .replay ∧ p.fresh = true ∧
-      (subscribeB k s o p).obs o = { (SubjM.handOver (s.obs o) p.history s.wasError s.wasCompleted) with armed := true }) := by
-  unfold subscribeB
+      (subscribeH k s o p).obs o = { (SubjM.handOver (s.obs o) p.history s.wasError s.wasCompleted) with armed := true }) := by
+  unfold subscribeH
   cases k with
   | replay =>
     dsimp only
@@ -279,24 +291,24 @@ theorem subscribeB_obs_self (k : SubjM.Kind) (s : SubjM.State) (o : Nat) (p : Pe
     · left; rfl
   | _ => left; rfl
 
-theorem Base.subscribeB {k s} (h : Base k s) (o : Nat) (p : Pending) (hf : p.fresh = true → (s.obs o).seen = true) :
-    Base k (subscribeB k s o p) := by
-  refine ⟨h.inv.subscribeB o p hf, fun o' => LogOk.subscribeB h.logOk o p o', ?_, ?_⟩
+theorem Base.subscribeH {k s} (h : Base k s) (o : Nat) (p : Pending) (hf : p.fresh = true → (s.obs o).seen = true) :
+    Base k (subscribeH k s o p) := by
+  refine ⟨h.inv.subscribeH o p hf, fun o' => LogOk.subscribeH h.logOk o p o', ?_, ?_⟩
   · intro o' ha
-    simp only [registered, SubjM.subscribeB_observers]
+    simp only [registered, SubjM.subscribeH_observers]
     by_cases hne : o' = o
     · subst hne
-      rcases subscribeB_obs_self k s o' p with h1 | ⟨_, _, h1⟩
+      rcases subscribeH_obs_self k s o' p with h1 | ⟨_, _, h1⟩
       · rw [h1] at ha; exact h.aliveReg o' ha
       · rw [h1] at ha
         cases ha0 : (s.obs o').alive with
         | true => exact h.aliveReg o' ha0
         | false => rw [handOver_dead _ _ _ _ ha0] at ha; simp [ha0] at ha
-    · rw [SubjM.subscribeB_obs_other _ _ _ _ _ hne] at ha; exact h.aliveReg o' ha
+    · rw [SubjM.subscribeH_obs_other _ _ _ _ _ hne] at ha; exact h.aliveReg o' ha
   · intro o' hs hh hd
     by_cases hne : o' = o
     · subst hne
-      rcases subscribeB_obs_self k s o' p with h1 | ⟨_, _, h1⟩
+      rcases subscribeH_obs_self k s o' p with h1 | ⟨_, _, h1⟩
       · rw [h1] at hs hh hd ⊢; exact h.deadWhy o' hs hh hd
       · rw [h1] at hs hh hd ⊢
         have hfld := SubjM.handOver_fields (s.obs o') p.history s.wasError s.wasCompleted
@@ -318,7 +330,32 @@ theorem Base.subscribeB {k s} (h : Base k s) (o : Nat) (p : Pending) (hf : p.fre
               cases hwc : s.wasCompleted with
               | false => simp [hwe, hwc] at hst
               | true => simp [hwe, hwc] at hst; simp [← hst.1, SubjM.nonTerminal, Ev.isTerminal]
-    · rw [SubjM.subscribeB_obs_other _ _ _ _ _ hne] at hs hh hd ⊢; exact h.deadWhy o' hs hh hd
+    · rw [SubjM.subscribeH_obs_other _ _ _ _ _ hne] at hs hh hd ⊢; exact h.deadWhy o' hs hh hd
+
+theorem reap_fields (s : SubjM.State) (o o' : Nat) :
+    ((reap s o).1.obs o').seen = (s.obs o').seen ∧ ((reap s o).1.obs o').alive = (s.obs o').alive ∧
+    ((reap s o).1.obs o').log = (s.obs o').log ∧ ((reap s o).1.obs o').hook = (s.obs o').hook := by
+  rw [SubjM.reap_obs]; split
+  · subst_vars; exact ⟨rfl, rfl, rfl, rfl⟩
+  · exact ⟨rfl, rfl, rfl, rfl⟩
+
+theorem Base.reap {k s} (h : Base k s) (o : Nat) : Base k (reap s o).1 := by
+  refine ⟨h.inv.reap o, fun o' => LogOk.reap h.logOk o o', ?_, ?_⟩
+  · intro o' ha
+    rw [(reap_fields s o o').2.1] at ha
+    refine (SubjM.reap_mem h.inv o o').2 ⟨h.aliveReg o' ha, ?_⟩
+    rintro ⟨rfl, hr⟩
+    unfold SubjM.reaped at hr; simp [ha] at hr
+  · intro o' hs hh hd
+    have hf := reap_fields s o o'
+    rw [hf.1] at hs; rw [hf.2.2.2] at hh; rw [hf.2.1] at hd; rw [hf.2.2.1]
+    exact h.deadWhy o' hs hh hd
+
+theorem Base.subscribeB {k s} (h : Base k s) (o : Nat) (p : Pending) (hf : p.fresh = true → (s.obs o).seen = true) :
+    Base k (subscribeB k s o p).1 := by
+  rw [SubjM.subscribeB_fst]; split
+  · exact (h.subscribeH o p hf).reap o
+  · exact h.subscribeH o p hf
 
 theorem Base.unsubscribeN {k s} (h : Base k s) (o : Nat) : Base k (unsubscribeN k s o).1 := by
   refine ⟨h.inv.unsubscribeN o, fun o' => LogOk.unsubscribeN h.logOk o o', ?_, ?_⟩
@@ -517,6 +554,15 @@ theorem onSubscribe_fire (k : Kind) (src : Src) (st : State) (hc : st.connecting
   · rw [List.length_set, hcl, h0]
   · rw [hcl, h0]
 
+theorem onUnsubscribe_busy (X : State) (n : Option Nat) (h1 : X.connecting = true)
+    (h2 : X.conns.length = 1 ∧ X.subscription = some 0) (h3 : X.cancelled = false) :
+    (onUnsubscribe X n).connecting = true ∧ (onUnsubscribe X n).conns.length = 1 ∧
+    (onUnsubscribe X n).subscription = some 0 ∧ (onUnsubscribe X n).cancelled = false := by
+  unfold onUnsubscribe
+  split
+  · simp [h1, h2, h3]
+  · exact ⟨h1, h2.1, h2.2, h3⟩
+
 theorem RC.step {k : Kind} (hk : k.counts = true) (src : Src) {st : State} (h : RC st) (c : Call) :
     RC (step k src st c) ∧ (step k src st c).connecting = (st.connecting || isSubscribe c) := by
   cases hc : st.connecting with
@@ -528,7 +574,10 @@ theorem RC.step {k : Kind} (hk : k.counts = true) (src : Src) {st : State} (h : 
           = { st with sub := (subscribeA k.subj st.sub o).1 } := by
         unfold onSubscribe; simp [hc]
       simp only [ConnM.step, hk, ↓reduceIte, hns, isSubscribe, Bool.or_true]
-      exact ⟨⟨by simp [hc], fun _ => hb, h.notCancelled⟩, hc⟩
+      have hu := onUnsubscribe_busy
+        { st with sub := (subscribeB k.subj (subscribeA k.subj st.sub o).1 o (subscribeA k.subj st.sub o).2).1 }
+        (subscribeB k.subj (subscribeA k.subj st.sub o).1 o (subscribeA k.subj st.sub o).2).2 hc hb h.notCancelled
+      exact ⟨⟨by simp [hu.1], fun _ => ⟨hu.2.1, hu.2.2.1⟩, hu.2.2.2⟩, hu.1⟩
     | unsubscribe o =>
       simp only [ConnM.step, hk, ↓reduceIte, isSubscribe, Bool.or_false]
       unfold onUnsubscribe
@@ -578,8 +627,11 @@ theorem RC.step {k : Kind} (hk : k.counts = true) (src : Src) {st : State} (h : 
       rw [hi.2.2.2.1] at hlen
       have hf := onSubscribe_fire k src { st with sub := (subscribeA k.subj st.sub o).1 } hc h.notCancelled hi.1
       simp only [ConnM.step, hk, ↓reduceIte, isSubscribe, Bool.or_true, hlen, List.length_nil, Nat.zero_add]
-      refine ⟨⟨fun h0 => ?_, fun _ => ⟨hf.2.2.2, hf.2.2.1⟩, hf.2.1⟩, hf.1⟩
-      rw [hf.1] at h0; simp at h0
+      generalize onSubscribe k src { st with sub := (subscribeA k.subj st.sub o).1 } (some 1) = Z at hf ⊢
+      have hu := onUnsubscribe_busy
+        { Z with sub := (subscribeB k.subj Z.sub o (subscribeA k.subj st.sub o).2).1 }
+        (subscribeB k.subj Z.sub o (subscribeA k.subj st.sub o).2).2 hf.1 ⟨hf.2.2.2, hf.2.2.1⟩ hf.2.1
+      exact ⟨⟨by simp [hu.1], fun _ => ⟨hu.2.1, hu.2.2.1⟩, hu.2.2.2⟩, hu.1⟩
     | unsubscribe o =>
       have : unsubscribeN k.subj st.sub o = (st.sub, none) := by
         unfold unsubscribeN; simp [hi.2.2.1 o]
@@ -723,19 +775,21 @@ theorem Twin.subscribeA {k l1 l2 o1 o2 s} (h : Twin k l1 l2 o1 o2 s) (o : Nat) :
 
 theorem Twin.subscribeB_other {k l1 l2 o1 o2 s} (h : Twin k l1 l2 o1 o2 s) (o : Nat) (p : Pending)
     (hf : p.fresh = true → (s.obs o).seen = true) (n1 : o1 ≠ o) (n2 : o2 ≠ o) :
-    Twin k l1 l2 o1 o2 (subscribeB k s o p) := by
+    Twin k l1 l2 o1 o2 (subscribeB k s o p).1 := by
+  have hreg : ∀ o', o' ≠ o → (o' ∈ registered (subscribeB k s o p).1 ↔ o' ∈ registered s) := fun o' hne =>
+    ⟨SubjM.subscribeB_sub k s o o' p, SubjM.subscribeB_mem_other h.base.inv o o' p hf hne⟩
   refine ⟨h.base.subscribeB o p hf, ?_, ?_, ?_, ?_⟩
   · rw [SubjM.subscribeB_obs_other _ _ _ _ _ n1]; exact h.seen1
   · rw [SubjM.subscribeB_obs_other _ _ _ _ _ n2]; exact h.seen2
-  · unfold Pres registered
-    rw [SubjM.subscribeB_observers, SubjM.subscribeB_obs_other _ _ _ _ _ n1, SubjM.subscribeB_obs_other _ _ _ _ _ n2]
+  · unfold Pres
+    rw [hreg o1 n1, hreg o2 n2, SubjM.subscribeB_obs_other _ _ _ _ _ n1, SubjM.subscribeB_obs_other _ _ _ _ _ n2]
     exact h.sync
   · simp only [SubjM.logOf, SubjM.subscribeB_obs_other _ _ _ _ _ n1, SubjM.subscribeB_obs_other _ _ _ _ _ n2]
     exact h.delta
 
 theorem subscribeB_not_fresh (k : SubjM.Kind) (s : SubjM.State) (o : Nat) (p : Pending) (hp : p.fresh = false) :
-    subscribeB k s o p = s := by
-  cases k <;> simp [subscribeB, hp]
+    (subscribeB k s o p).1 = s := by
+  rw [SubjM.subscribeB_noop k s o p (by simp [hp])]
 
 /-- one call: two observers that are both present when it is made get the same events out of it -/
 theorem same_items_step (k : Kind) (src : Src) (st : State) (c : Call) (o1 o2 : Nat)
@@ -1042,17 +1096,34 @@ theorem AliveNoTerm.emit {k : SubjM.Kind} (hk : k.isAsync = false) {s : SubjM.St
   | error e => simp [Ev.isTerminal] at hreg
   | complete => simp [Ev.isTerminal] at hreg
 
+/-- `subscribe` on the subject up to `*sbsc.write() = Some(live)` (before the reaping) -/
+def stepH (k : SubjM.Kind) (s : SubjM.State) (o : Nat) : SubjM.State :=
+  subscribeH k (subscribeA k s o).1 o (subscribeA k s o).2
+
+theorem stepH_seen (k : SubjM.Kind) (s : SubjM.State) (o : Nat) (hs : (s.obs o).seen = true) : stepH k s o = s := by
+  unfold stepH; rw [SubjM.subscribeA_seen k s o hs]; exact SubjM.subscribeH_not_fresh k s o {} rfl
+
+theorem stepH_other (k : SubjM.Kind) (s : SubjM.State) (o o' : Nat) (hne : o' ≠ o) :
+    (stepH k s o).obs o' = s.obs o' := by
+  unfold stepH; rw [SubjM.subscribeH_obs_other _ _ _ _ _ hne, SubjM.subscribeA_obs_other _ _ _ _ hne]
+
+/-- the whole subject-level `subscribe` is `stepH` followed by the reaping -/
+theorem step_eq_reap (k : SubjM.Kind) (s : SubjM.State) (o : Nat) :
+    SubjM.step k s (.subscribe o) =
+      if k.isReplay && (subscribeA k s o).2.fresh then (reap (stepH k s o) o).1 else stepH k s o := by
+  simp only [SubjM.step, SubjM.subscribeB_fst, stepH]
+
 /-- what `subscribe o` does to the inner ReplaySubject for an unused id (no source activity in between) -/
 theorem replay_subscribe_fresh (s : SubjM.State) (o : Nat) (hu : (s.obs o).seen = false) :
-    ((SubjM.step .replay s (.subscribe o)).obs o).log = s.items.map .next ++ stored s ∧
-    ((SubjM.step .replay s (.subscribe o)).obs o).alive = (stored s).isEmpty ∧
-    registered (SubjM.step .replay s (.subscribe o)) = registered s ++ [o] := by
-  have hstep : SubjM.step .replay s (.subscribe o) =
+    ((stepH .replay s o).obs o).log = s.items.map .next ++ stored s ∧
+    ((stepH .replay s o).obs o).alive = (stored s).isEmpty ∧
+    registered (stepH .replay s o) = registered s ++ [o] := by
+  have hstep : stepH .replay s o =
       { SubjM.register s o { seen := true, alive := true, hook := true, inAlive := true } with
         obs := SubjM.upd (SubjM.register s o { seen := true, alive := true, hook := true, inAlive := true }).obs o
           { (SubjM.handOver { seen := true, alive := true, hook := true, inAlive := true, inHook := some (s.serial + 1) }
               s.items s.wasError s.wasCompleted) with armed := true } } := by
-    simp [SubjM.step, subscribeA, subscribeB, hu, SubjM.register_obs]
+    simp [stepH, subscribeA, subscribeH, hu, SubjM.register_obs]
     rfl
   have hho := SubjM.handOver_alive { seen := true, alive := true, hook := true, inAlive := true, inHook := some (s.serial + 1) }
     s.items s.wasError s.wasCompleted rfl
@@ -1060,33 +1131,34 @@ theorem replay_subscribe_fresh (s : SubjM.State) (o : Nat) (hu : (s.obs o).seen 
   refine ⟨by simp [hho.1, stored], by simp [hho.2, stored], by simp [registered, SubjM.register]⟩
 
 theorem step_subscribe_mem (k : SubjM.Kind) (s : SubjM.State) (o : Nat) :
-    (SubjM.step k s (.subscribe o)).items = s.items ∧ stored (SubjM.step k s (.subscribe o)) = stored s := by
-  have := SubjM.step_mem_sub k s o
+    (stepH k s o).items = s.items ∧ stored (stepH k s o) = stored s := by
+  have := (SubjM.subscribeH_mem k (subscribeA k s o).1 o (subscribeA k s o).2).trans (SubjM.subscribeA_mem k s o)
+  unfold stepH
   simp only [SubjM.mem, Prod.mk.injEq] at this
   exact ⟨this.2.2.1, by unfold stored; rw [this.2.2.2.1, this.2.2.2.2]⟩
 
 theorem step_subscribe_registered (k : Kind) (s : SubjM.State) (o : Nat) (hu : (s.obs o).seen = false) :
-    registered (SubjM.step k.subj s (.subscribe o)) = registered s ++ [o] := by
-  simp only [SubjM.step, registered, SubjM.subscribeB_observers]
+    registered (stepH k.subj s o) = registered s ++ [o] := by
+  simp only [stepH, registered, SubjM.subscribeH_observers]
   have := SubjM.subscribeA_registered k.subj s o
   simp only [registered] at this
   rw [this]
   cases k <;> simp [subscribeA, Kind.subj, hu]
 
 theorem base_step_subscribe {k : SubjM.Kind} {s : SubjM.State} (h : Base k s) (o : Nat) :
-    Base k (SubjM.step k s (.subscribe o)) :=
-  (h.subscribeA o).subscribeB o _ (SubjM.subscribeA_fresh_seen k s o)
+    Base k (stepH k s o) :=
+  (h.subscribeA o).subscribeH o _ (SubjM.subscribeA_fresh_seen k s o)
 
-/-- `subscribe` while the source subscription already exists (`connecting` set): nothing but the subject moves -/
+/-- `subscribe` while the source subscription already exists (`connecting` set), up to the stored `sbsc` -/
 theorem Core.subscribeLate {k : Kind} (hk : k.counts = true) {st : State} (h : Core k st) (o : Nat) :
-    Core k { st with sub := SubjM.step k.subj st.sub (.subscribe o) } := by
+    Core k { st with sub := stepH k.subj st.sub o } := by
   cases hs : (st.sub.obs o).seen with
-  | true => rw [SubjM.step_subscribe_seen _ _ _ hs]; exact h
+  | true => rw [stepH_seen _ _ _ hs]; exact h
   | false =>
     have hreg := step_subscribe_registered k st.sub o hs
     have hmem := step_subscribe_mem k.subj st.sub o
-    have hoth : ∀ o', o' ≠ o → (SubjM.step k.subj st.sub (.subscribe o)).obs o' = st.sub.obs o' :=
-      fun o' hne => SubjM.step_subscribe_other k.subj st.sub o o' hne
+    have hoth : ∀ o', o' ≠ o → (stepH k.subj st.sub o).obs o' = st.sub.obs o' :=
+      fun o' hne => stepH_other k.subj st.sub o o' hne
     refine ⟨base_step_subscribe h.base o, h.one, ?_, ?_, ?_, ?_⟩
     · intro _; simp only [hreg]; simp
     · intro hl; simp only [hmem.2]; exact h.liveNoTerm hl
@@ -1178,23 +1250,77 @@ theorem handOver_nil_noop (r : SubjM.ObsSt) (we : Option Nat) (wc : Bool)
 
 /-- the hand-over of the subscriber that made ref_count / replay connect: its history snapshot is empty and it
     has already been shown, live, whatever terminal the cold source produced -/
-theorem Core.subscribeB0 {k : Kind} {st : State} (h : Core k st) (hnt : AliveNoTerm st.sub) (o : Nat) (p : Pending)
+theorem Core.subscribeH0 {k : Kind} {st : State} (h : Core k st) (hnt : AliveNoTerm st.sub) (o : Nat) (p : Pending)
     (hp : p.history = []) (hf : p.fresh = true → (st.sub.obs o).seen = true) :
-    Core k { st with sub := subscribeB k.subj st.sub o p } := by
-  have hb := h.base.subscribeB o p hf
-  have hobs : ∀ o', ((subscribeB k.subj st.sub o p).obs o').log = (st.sub.obs o').log ∧
-      ((subscribeB k.subj st.sub o p).obs o').alive = (st.sub.obs o').alive := by
+    Core k { st with sub := subscribeH k.subj st.sub o p } := by
+  have hb := h.base.subscribeH o p hf
+  have hobs : ∀ o', ((subscribeH k.subj st.sub o p).obs o').log = (st.sub.obs o').log ∧
+      ((subscribeH k.subj st.sub o p).obs o').alive = (st.sub.obs o').alive := by
     intro o'
     by_cases hne : o' = o
     · subst hne
-      rcases subscribeB_obs_self k.subj st.sub o' p with h1 | ⟨_, _, h1⟩
+      rcases subscribeH_obs_self k.subj st.sub o' p with h1 | ⟨_, _, h1⟩
       · rw [h1]; exact ⟨rfl, rfl⟩
       · rw [h1, hp, handOver_nil_noop _ _ _ (hnt o')]; exact ⟨rfl, rfl⟩
-    · rw [SubjM.subscribeB_obs_other _ _ _ _ _ hne]; exact ⟨rfl, rfl⟩
-  have hmem := SubjM.subscribeB_mem k.subj st.sub o p
+    · rw [SubjM.subscribeH_obs_other _ _ _ _ _ hne]; exact ⟨rfl, rfl⟩
+  have hmem := SubjM.subscribeH_mem k.subj st.sub o p
   simp only [SubjM.mem, Prod.mk.injEq] at hmem
-  exact h.transfer hb (SubjM.subscribeB_observers _ _ _ _) hmem.2.2.1
+  exact h.transfer hb (SubjM.subscribeH_observers _ _ _ _) hmem.2.2.1
     (by unfold stored; rw [hmem.2.2.2.1, hmem.2.2.2.2]) (fun o' => (hobs o').1) (fun o' => (hobs o').2) rfl rfl
+
+theorem sourceLive_set_false (conns : List Bool) (i : Nat) (h : (conns.set i false).any id = true) :
+    conns.any id = true := by
+  simp only [List.any_eq_true, id] at *
+  obtain ⟨b, hb, rfl⟩ := h
+  exact ⟨true, (List.mem_or_eq_of_mem_set hb).resolve_right (by simp), rfl⟩
+
+/-- taking a dead subscriber's forwarder out of the map disturbs nothing the connectable relies on -/
+theorem Core.reapSub {k : Kind} {st : State} (h : Core k st) (o : Nat) :
+    Core k { st with sub := (reap st.sub o).1 } := by
+  have hm := SubjM.reap_mem h.base.inv o
+  have hf := reap_fields st.sub o
+  refine ⟨h.base.reap o, h.one, ?_, fun hl => h.liveNoTerm hl, ?_, ?_⟩
+  · intro hl
+    have hne := h.liveReg hl
+    have hst := h.liveNoTerm hl
+    cases hr : registered st.sub with
+    | nil => exact absurd hr hne
+    | cons o' rest =>
+      have ho' : o' ∈ registered st.sub := by rw [hr]; simp
+      have : o' ∈ registered (reap st.sub o).1 := by
+        refine (hm o').2 ⟨ho', ?_⟩
+        rintro ⟨rfl, hrp⟩
+        rcases h.regAliveOr o' ho' with ha | hs
+        · unfold SubjM.reaped at hrp; simp [ha] at hrp
+        · exact hs hst
+      intro he; simp only at he; rw [he] at this; simp at this
+  · intro o' ho'
+    have := h.regAliveOr o' ((hm o').1 ho').1
+    show _ ∨ stored st.sub ≠ []
+    simpa only [(hf o').2.1] using this
+  · intro hk
+    obtain ⟨f1, f2, f3, f4⟩ := h.hist hk
+    refine ⟨?_, ?_, ?_, f4⟩
+    · intro o' ha; simp only [(hf o').2.1] at ha; simp only [(hf o').2.2.1]; exact f1 o' ha
+    · intro o' hn; simp only [(hf o').2.2.1] at hn ⊢; exact f2 o' hn
+    · intro o'; simp only [(hf o').2.2.1]; exact f3 o'
+
+theorem Core.killConn {k : Kind} {st : State} (h : Core k st) (i : Nat) :
+    Core k { st with conns := st.conns.set i false } := by
+  have hl : sourceLive { st with conns := st.conns.set i false } = true → sourceLive st = true :=
+    fun hh => sourceLive_set_false st.conns i hh
+  exact ⟨h.base, by simpa using h.one, fun hh => h.liveReg (hl hh), fun hh => h.liveNoTerm (hl hh), h.regAliveOr, fun hk =>
+    ⟨(h.hist hk).aliveAll, (h.hist hk).doneAll, (h.hist hk).pre, (h.hist hk).emitted⟩⟩
+
+/-- an `on_unsubscribe(len)` call can only take the source subscription down -/
+theorem Core.onUnsubscribe {k : Kind} {st : State} (h : Core k st) (n : Option Nat) :
+    Core k (ConnM.onUnsubscribe st n) := by
+  unfold ConnM.onUnsubscribe
+  split
+  · cases hs : st.subscription with
+    | none => exact h.congr rfl rfl rfl
+    | some i => exact (h.killConn i).congr rfl rfl rfl
+  · exact h
 
 theorem subscribeA_fresh_counts (k : Kind) (hk : k.counts = true) (s : SubjM.State) (o : Nat)
     (hu : (s.obs o).seen = false) :
@@ -1251,12 +1377,6 @@ theorem unsub_note (k : SubjM.Kind) (s : SubjM.State) (o : Nat) :
     | some x =>
       cases hr : ((s.obs o).hook && (k.isPlain || (s.obs o).armed)) <;> simp
 
-theorem sourceLive_set_false (conns : List Bool) (i : Nat) (h : (conns.set i false).any id = true) :
-    conns.any id = true := by
-  simp only [List.any_eq_true, id] at *
-  obtain ⟨b, hb, rfl⟩ := h
-  exact ⟨true, (List.mem_or_eq_of_mem_set hb).resolve_right (by simp), rfl⟩
-
 theorem Core.unsubscribe {k : Kind} (hk : k.counts = true) (src : Src) {st : State} (h : Core k st)
     (ha : Armed k.subj st.sub) (hsub : sourceLive st = true → st.subscription = some 0) (o : Nat) :
     Core k (step k src st (.unsubscribe o)) := by
@@ -1305,7 +1425,7 @@ theorem Core.unsubscribe {k : Kind} (hk : k.counts = true) (src : Src) {st : Sta
       · intro o' hn; simp only [hlog] at hn ⊢; simp only [hmem.2.2.1, hstored]; exact f2 o' hn
       · intro o'; simp only [hlog, hmem.2.2.1]; exact f3 o'
   simp only [ConnM.step, hk, ↓reduceIte]
-  unfold onUnsubscribe
+  unfold ConnM.onUnsubscribe
   split
   · rename_i hz
     refine (key (match st.subscription with | some i => st.conns.set i false | none => st.conns) ?_ ?_).congr rfl rfl rfl
@@ -1331,14 +1451,12 @@ theorem Core.unsubscribe {k : Kind} (hk : k.counts = true) (src : Src) {st : Sta
       have := hnote.2 n hn
       intro he; rw [he] at this; simp at this; rw [hn, ← this] at hz; exact hz rfl
 
-theorem armed_emit {k : SubjM.Kind} {s : SubjM.State} (hi : Inv k s) (ha : Armed k s) (ev : Ev) :
-    Armed k (emit k s ev) := by
-  have hg : SubjM.Good k s := ⟨hi, ha⟩
+theorem good_emit {k : SubjM.Kind} {s : SubjM.State} (hg : SubjM.Good k s) (ev : Ev) :
+    SubjM.Good k (emit k s ev) := by
   cases ev with
-  | next v => exact (hg.step (.next v)).armed
-  | error e => exact (hg.step (.error e)).armed
-  | complete => exact (hg.step .complete).armed
-
+  | next v => exact hg.step (.next v)
+  | error e => exact hg.step (.error e)
+  | complete => exact hg.step .complete
 
 /-! ### the first subscriber -/
 
@@ -1361,17 +1479,25 @@ theorem onSubscribe_first {k : Kind} (hk : k.counts = true) (src : Src) (st1 : S
 /-- the call-level invariant of ref_count / replay -/
 structure Full (k : Kind) (st : State) : Prop where
   core : Core k st
-  armed : Armed k.subj st.sub
+  good : SubjM.Good k.subj st.sub
   rc : RC st
 
 theorem full_init (k : Kind) : Full k init := by
   have hb : Base k.subj init.sub := by cases k <;> exact base_init _
-  refine ⟨⟨hb, by simp [init], by simp [sourceLive, init], by simp [sourceLive, init], ?_, ?_⟩, ?_, rc_init⟩
+  have hg : SubjM.Good k.subj init.sub := by cases k <;> exact SubjM.good_init _
+  refine ⟨⟨hb, by simp [init], by simp [sourceLive, init], by simp [sourceLive, init], ?_, ?_⟩, hg, rc_init⟩
   · intro o ho; simp [init, registered] at ho
   · intro _
     exact ⟨by intro o ha; simp [init] at ha, by intro o hn; simp [init, SubjM.nonTerminal] at hn,
       by intro o; simp [init, itemsOf], rfl⟩
-  · intro o ho; simp [init, registered] at ho
+
+/-- `Core` across the subject-level `subscribe` (hand-over and reaping) when no source activity intervenes -/
+theorem Core.subscribeSub {k : Kind} (hk : k.counts = true) {st : State} (h : Core k st) (o : Nat) :
+    Core k { st with sub := SubjM.step k.subj st.sub (.subscribe o) } := by
+  rw [step_eq_reap]
+  split
+  · exact (h.subscribeLate hk o).reapSub o
+  · exact h.subscribeLate hk o
 
 theorem Full.step {k : Kind} (hk : k.counts = true) (src : Src) {st : State} (h : Full k st) (c : Call) :
     Full k (step k src st c) := by
@@ -1382,51 +1508,42 @@ theorem Full.step {k : Kind} (hk : k.counts = true) (src : Src) {st : State} (h 
     cases hc : st.connecting with
     | true => exact (h.rc.busy hc).2
     | false => have := (h.rc.idle hc).1; simp [sourceLive, this] at hl
-  have hbase := h.core.base.step src c
-  -- `Armed` is automatic for the plain Subject of ref_count
-  have harm_plain : k.subj.isReplay = false → Armed k.subj (ConnM.step k src st c).sub :=
-    fun hr => hbase.inv.armed_of_not_replay hr
   cases c with
   | unsubscribe o =>
-    refine ⟨h.core.unsubscribe hk src h.armed hsubscr o, ?_, hrc⟩
+    refine ⟨h.core.unsubscribe hk src h.good.armed hsubscr o, ?_, hrc⟩
     have : (ConnM.step k src st (.unsubscribe o)).sub = SubjM.step k.subj st.sub (.unsubscribe o) := by
       simp only [ConnM.step, hk, ↓reduceIte, onUnsubscribe_sub]; rfl
     rw [this]
-    exact ((⟨h.core.base.inv, h.armed⟩ : SubjM.Good k.subj st.sub).step _).armed
+    exact h.good.step _
   | connect => simpa [ConnM.step, hk] using h
   | disconnect => simpa [ConnM.step, hk] using h
   | srcNext v =>
     cases src with
     | cold script => simpa [ConnM.step] using h
-    | hot =>
-      refine ⟨h.core.hotEmit hk _, ?_, hrc⟩
-      exact hotEmit_pres (P := fun s => Inv k.subj s ∧ Armed k.subj s)
-        (fun s ev hs => ⟨hs.1.emit ev, armed_emit hs.1 hs.2 ev⟩) st _ ⟨h.core.base.inv, h.armed⟩ |>.2
+    | hot => exact ⟨h.core.hotEmit hk _, hotEmit_pres (P := SubjM.Good k.subj) (fun s ev hs => good_emit hs ev) st _ h.good, hrc⟩
   | srcError e =>
     cases src with
     | cold script => simpa [ConnM.step] using h
-    | hot =>
-      refine ⟨h.core.hotEmit hk _, ?_, hrc⟩
-      exact hotEmit_pres (P := fun s => Inv k.subj s ∧ Armed k.subj s)
-        (fun s ev hs => ⟨hs.1.emit ev, armed_emit hs.1 hs.2 ev⟩) st _ ⟨h.core.base.inv, h.armed⟩ |>.2
+    | hot => exact ⟨h.core.hotEmit hk _, hotEmit_pres (P := SubjM.Good k.subj) (fun s ev hs => good_emit hs ev) st _ h.good, hrc⟩
   | srcComplete =>
     cases src with
     | cold script => simpa [ConnM.step] using h
-    | hot =>
-      refine ⟨h.core.hotEmit hk _, ?_, hrc⟩
-      exact hotEmit_pres (P := fun s => Inv k.subj s ∧ Armed k.subj s)
-        (fun s ev hs => ⟨hs.1.emit ev, armed_emit hs.1 hs.2 ev⟩) st _ ⟨h.core.base.inv, h.armed⟩ |>.2
+    | hot => exact ⟨h.core.hotEmit hk _, hotEmit_pres (P := SubjM.Good k.subj) (fun s ev hs => good_emit hs ev) st _ h.good, hrc⟩
   | subscribe o =>
     cases hc : st.connecting with
     | true =>
-      -- the source subscription exists already: only the subject moves
+      -- the source subscription exists already: the subject moves, and the reaping may call `on_unsubscribe`
       have hns : onSubscribe k src { st with sub := (subscribeA k.subj st.sub o).1 } (subscribeA k.subj st.sub o).2.len
           = { st with sub := (subscribeA k.subj st.sub o).1 } := by
         unfold onSubscribe; simp [hc]
-      have hst : ConnM.step k src st (.subscribe o) = { st with sub := SubjM.step k.subj st.sub (.subscribe o) } := by
+      have hst : ConnM.step k src st (.subscribe o) =
+          onUnsubscribe { st with sub := SubjM.step k.subj st.sub (.subscribe o) }
+            (subscribeB k.subj (subscribeA k.subj st.sub o).1 o (subscribeA k.subj st.sub o).2).2 := by
         simp only [ConnM.step, hk, ↓reduceIte, hns]; rfl
       rw [hst] at hrc ⊢
-      exact ⟨h.core.subscribeLate hk o, ((⟨h.core.base.inv, h.armed⟩ : SubjM.Good k.subj st.sub).step _).armed, hrc⟩
+      refine ⟨(h.core.subscribeSub hk o).onUnsubscribe _, ?_, hrc⟩
+      rw [onUnsubscribe_sub]
+      exact h.good.step (.subscribe o)
     | false =>
       have hi := h.rc.idle hc
       have hu := hi.2.2.1 o
@@ -1458,28 +1575,54 @@ theorem Full.step {k : Kind} (hk : k.counts = true) (src : Src) {st : State} (h 
         (fun Y h1 h2 h3 => (hcf Y h1 (by rw [h2]; simp [hi.1]) (by rw [h3]; exact hi.2.2.2.2.2.2.2)).1)
       have hP2 := onSubscribe_pres hP src { st with sub := (subscribeA k.subj st.sub o).1 } (some 1) hP0
       have hst : ConnM.step k src st (.subscribe o) =
-          { onSubscribe k src { st with sub := (subscribeA k.subj st.sub o).1 } (some 1) with
-            sub := subscribeB k.subj (onSubscribe k src { st with sub := (subscribeA k.subj st.sub o).1 } (some 1)).sub o
-              (subscribeA k.subj st.sub o).2 } := by
+          onUnsubscribe
+            { onSubscribe k src { st with sub := (subscribeA k.subj st.sub o).1 } (some 1) with
+              sub := (subscribeB k.subj (onSubscribe k src { st with sub := (subscribeA k.subj st.sub o).1 } (some 1)).sub o
+                (subscribeA k.subj st.sub o).2).1 }
+            (subscribeB k.subj (onSubscribe k src { st with sub := (subscribeA k.subj st.sub o).1 } (some 1)).sub o
+                (subscribeA k.subj st.sub o).2).2 := by
         simp only [ConnM.step, hk, ↓reduceIte, hlen, List.length_nil, Nat.zero_add]
       rw [hst] at hrc ⊢
       generalize onSubscribe k src { st with sub := (subscribeA k.subj st.sub o).1 } (some 1) = Z at hcore2 hP2 hrc ⊢
       obtain ⟨p1, p2, p3, p4, p5⟩ := hP2
-      refine ⟨hcore2.subscribeB0 p2 o _ hhist (fun _ => p5), ?_, hrc⟩
+      have hfr := hf.1
+      generalize (subscribeA k.subj st.sub o).2 = p at hfr hhist hrc ⊢
+      have hcoreH : Core k { Z with sub := subscribeH k.subj Z.sub o p } :=
+        hcore2.subscribeH0 p2 o p hhist (fun _ => p5)
+      have hcoreB : Core k { Z with sub := (subscribeB k.subj Z.sub o p).1 } := by
+        rw [SubjM.subscribeB_fst]; split
+        · exact hcoreH.reapSub o
+        · exact hcoreH
+      refine ⟨hcoreB.onUnsubscribe _, ?_, hrc⟩
+      rw [onUnsubscribe_sub]
+      have hbB := p1.subscribeB o p (fun _ => p5)
       cases hr : k.subj.isReplay with
       | false =>
-        exact (p1.subscribeB o _ (fun _ => p5)).inv.armed_of_not_replay hr
+        exact ⟨hbB.inv, hbB.inv.armed_of_not_replay hr, fun o' ho' => hbB.inv.regAlive o' ho' hr⟩
       | true =>
         have hkr : k.subj = .replay := by cases k <;> simp_all [Kind.subj, SubjM.Kind.isReplay]
-        have hfr := hf.1
-        generalize (subscribeA k.subj st.sub o).2 = p at hfr ⊢
+        -- only `o` can be in the map, and only if it survived the hand-over
+        have hiH := p1.inv.subscribeH o p (fun _ => p5)
+        suffices hs : ∀ o', o' ∈ registered (subscribeB k.subj Z.sub o p).1 →
+            ((subscribeB k.subj Z.sub o p).1.obs o').hook = true ∧ ((subscribeB k.subj Z.sub o p).1.obs o').armed = true ∧
+            ((subscribeB k.subj Z.sub o p).1.obs o').alive = true from
+          ⟨hbB.inv, fun o' ho' => ⟨(hs o' ho').1, Or.inr (hs o' ho').2.1⟩, fun o' ho' => (hs o' ho').2.2⟩
         intro o' ho'
-        simp only [registered, SubjM.subscribeB_observers] at ho'
-        have := p3 o' ho'
+        have := p3 o' (SubjM.subscribeB_sub _ _ _ _ _ ho')
         subst this
-        rw [hkr]
-        simp only [subscribeB, hfr, ↓reduceIte, SubjM.upd_same, (SubjM.handOver_fields _ _ _ _).2.1]
-        exact ⟨p4, Or.inr trivial⟩
+        simp only [SubjM.subscribeB_fst, hr, hfr, Bool.and_self, ↓reduceIte] at ho' ⊢
+        have hHo : ((subscribeH k.subj Z.sub o' p).obs o').hook = true ∧ ((subscribeH k.subj Z.sub o' p).obs o').armed = true := by
+          rw [hkr]; simp [subscribeH, hfr, (SubjM.handOver_fields _ _ _ _).2.1, p4]
+        have hm := (SubjM.reap_mem hiH o' o').1 ho'
+        have hnr : SubjM.reaped ((subscribeH k.subj Z.sub o' p).obs o') = false := by
+          cases hrp : SubjM.reaped ((subscribeH k.subj Z.sub o' p).obs o') with
+          | false => rfl
+          | true => exact absurd ⟨rfl, hrp⟩ hm.2
+        have hal' : ((subscribeH k.subj Z.sub o' p).obs o').alive = true := by
+          unfold SubjM.reaped at hnr; simpa [hHo.2] using hnr
+        have hs' := SubjM.reap_obs_self (subscribeH k.subj Z.sub o' p) o'
+        refine ⟨by rw [hs'.2.2.2]; exact hHo.1, ?_, by rw [hs'.2.1]; exact hal'⟩
+        rw [SubjM.reap_obs, if_pos rfl]; simp [hHo.2, hal']
 
 theorem full_runFrom {k : Kind} (hk : k.counts = true) (src : Src) {st : State} (h : Full k st) (cs : List Call) :
     Full k (runFrom k src st cs) := by
@@ -1520,6 +1663,14 @@ theorem last_subscriber_stops_source {k : Kind} (hk : k.counts = true) (src : Sr
   | false => rfl
   | true => exact absurd hempty (h.liveReg hl)
 
+/-- nothing stored yet: the hand-over leaves the new subscriber alive, so nothing is reaped -/
+theorem first_subscribe_note (k : Kind) (s : SubjM.State) (o : Nat) (hu : (s.obs o).seen = false)
+    (hitems : s.items = []) (hwe : s.wasError = none) (hwc : s.wasCompleted = false) :
+    (subscribeB k.subj (subscribeA k.subj s o).1 o (subscribeA k.subj s o).2).2 = none := by
+  cases k <;>
+    simp [subscribeB, subscribeH, subscribeA, hu, Kind.subj, SubjM.Kind.isReplay, reap, SubjM.handOver, hitems, hwe, hwc,
+      SubjM.register, SubjM.ObsSt.recv]
+
 /-- the first arrival subscribes the (hot) source, and it stays subscribed -/
 theorem first_arrival_connects {k : Kind} (hk : k.counts = true) (cs : List Call) (o : Nat)
     (hnone : cs.any isSubscribe = false) :
@@ -1537,8 +1688,13 @@ theorem first_arrival_connects {k : Kind} (hk : k.counts = true) (cs : List Call
   show sourceLive (step k .hot (run k .hot cs) (.subscribe o)) = true
   have hlen := subscribeA_len_fresh k (run k .hot cs).sub o (hi.2.2.1 o)
   rw [hi.2.2.2.1] at hlen
+  have hnote := first_subscribe_note k (run k .hot cs).sub o (hi.2.2.1 o) hi.2.2.2.2.1 hi.2.2.2.2.2.1 hi.2.2.2.2.2.2.1
   simp only [step, hk, ↓reduceIte, hlen, List.length_nil, Nat.zero_add]
-  simp [sourceLive, onSubscribe, hc, connectSource, hrc.1.notCancelled, hi.1]
+  have hsub : (onSubscribe k .hot { run k .hot cs with sub := (subscribeA k.subj (run k .hot cs).sub o).1 } (some 1)).sub
+      = (subscribeA k.subj (run k .hot cs).sub o).1 := by
+    simp [onSubscribe, hc, connectSource]
+  rw [hsub, hnote]
+  simp [sourceLive, onSubscribe, onUnsubscribe, hc, connectSource, hrc.1.notCancelled, hi.1]
 
 theorem connRecv_dead (k : Kind) (st : State) (i : Nat) (ev : Ev) (h : sourceLive st = false) :
     connRecv k st i ev = st := by
@@ -1674,9 +1830,12 @@ theorem replay_arrival (src : Src) (cs : List Call) (o : Nat) (hfresh : Call.sub
     have h2 := onSubscribe_pres (P := fun s => (s.obs o).seen = true ∧ (s.obs o).hook = true) hE src
       { run .replay src cs with sub := (subscribeA Kind.replay.subj (run .replay src cs).sub o).1 }
       (subscribeA Kind.replay.subj (run .replay src cs).sub o).2.len ⟨SubjM.subscribeA_marks _ _ _, hf.2.2.2.2.2⟩
-    simp only [step, Kind.counts, ↓reduceIte]
+    rw [step_subscribe_sub_eq]
+    simp only [Kind.counts, ↓reduceIte]
     generalize onSubscribe .replay src _ _ = Z at h2 ⊢
-    rcases subscribeB_obs_self Kind.replay.subj Z.sub o (subscribeA Kind.replay.subj (run .replay src cs).sub o).2 with h1 | ⟨_, _, h1⟩
+    have hB := SubjM.subscribeB_obs_self Kind.replay.subj Z.sub o (subscribeA Kind.replay.subj (run .replay src cs).sub o).2
+    rw [hB.1, hB.2.2.2]
+    rcases subscribeH_obs_self Kind.replay.subj Z.sub o (subscribeA Kind.replay.subj (run .replay src cs).sub o).2 with h1 | ⟨_, _, h1⟩
     · simp only [h1]; exact h2
     · have hfl := SubjM.handOver_fields (Z.sub.obs o) (subscribeA Kind.replay.subj (run .replay src cs).sub o).2.history
         Z.sub.wasError Z.sub.wasCompleted
@@ -1725,6 +1884,9 @@ theorem foldEv_emitted (k : Kind) (evs : List Ev) (st : State) (h : st.conns = [
       have h2 : (connRecv k st 0 .complete).emitted = st.emitted := by simp [connRecv, h, accept]
       rw [foldEv_dead k 0 evs _ h1, h2]; simp [feed]
 
+theorem onUnsubscribe_emitted (st : State) (n : Option Nat) : (onUnsubscribe st n).emitted = st.emitted := by
+  unfold onUnsubscribe; split <;> rfl
+
 theorem cold_step_emitted {k : Kind} (hk : k.counts = true) (script : List Ev) {st : State} (hrc : RC st) (c : Call) :
     (step k (.cold script) st c).emitted =
       if st.connecting = false ∧ isSubscribe c = true then feed script else st.emitted := by
@@ -1735,12 +1897,12 @@ theorem cold_step_emitted {k : Kind} (hk : k.counts = true) (script : List Ev) {
       have hns : onSubscribe k (.cold script) { st with sub := (subscribeA k.subj st.sub o).1 } (subscribeA k.subj st.sub o).2.len
           = { st with sub := (subscribeA k.subj st.sub o).1 } := by
         unfold onSubscribe; simp [hc]
-      simp [step, hk, hns]
+      simp [step, hk, hns, onUnsubscribe_emitted]
     | false =>
       have hi := hrc.idle hc
       have hlen := subscribeA_len_fresh k st.sub o (hi.2.2.1 o)
       rw [hi.2.2.2.1] at hlen
-      simp only [step, hk, ↓reduceIte, hlen, List.length_nil, Nat.zero_add, isSubscribe, and_self]
+      simp only [step, hk, ↓reduceIte, hlen, List.length_nil, Nat.zero_add, isSubscribe, and_self, onUnsubscribe_emitted]
       unfold onSubscribe
       simp only [hc, and_self, ↓reduceIte, connectSource, hi.1, List.nil_append, List.length_nil]
       rw [foldEv_emitted k script _ rfl]
